@@ -13,6 +13,8 @@
 #include <unistd.h>
 #include <vector>
 
+#include <fcntl.h>
+
 namespace c16 {
 using rkcommon::xml::Node;
 using rkcommon::xml::XMLDoc;
@@ -41,7 +43,9 @@ enum Outcome
   THREW_RUNTIME_ERROR
 };
 // any other exception type propagates to the caller (and is a violation)
-inline Outcome readBytes(const std::string &bytes, XMLDoc &doc)
+// via: how the file is named to readXML - 0 its path, 1 a symbolic link to it, 2 /proc/self/fd/N of an open descriptor,
+// 3 the path with a doubled separator and a "./" component.  The bytes are the same; so must the outcome be.
+inline Outcome readBytes(const std::string &bytes, XMLDoc &doc, int via = 0, std::string *usedPath = nullptr)
 {
   silenceCout();
   FILE *f = fopen(scratchFile().c_str(), "wb");
@@ -63,8 +67,44 @@ inline Outcome readBytes(const std::string &bytes, XMLDoc &doc)
         munmap(p, 4096);
     }
   } unmap{guard};
+  std::string path = scratchFile();
+  int fd = -1;
+  const std::string link = scratchFile() + ".lnk";
+  switch (((via % 4) + 4) % 4) {
+  case 1:
+    unlink(link.c_str());
+    if (symlink(scratchFile().c_str(), link.c_str()) == 0)
+      path = link;
+    break;
+  case 2:
+    fd = open(scratchFile().c_str(), O_RDONLY);
+    if (fd >= 0)
+      path = "/proc/self/fd/" + std::to_string(fd);
+    break;
+  case 3: {
+    size_t p = path.rfind('/');
+    if (p != std::string::npos)
+      path = path.substr(0, p) + "//./" + path.substr(p + 1);
+    break;
+  }
+  default:
+    break;
+  }
+  if (usedPath)
+    *usedPath = path;
+  struct Cleanup
+  {
+    int fd;
+    std::string link;
+    ~Cleanup()
+    {
+      if (fd >= 0)
+        close(fd);
+      unlink(link.c_str());
+    }
+  } cleanup{fd, link};
   try {
-    doc = rkcommon::xml::readXML(scratchFile());
+    doc = rkcommon::xml::readXML(path);
   } catch (const std::runtime_error &) {
     return THREW_RUNTIME_ERROR;
   }
